@@ -181,9 +181,73 @@ func checkClone(p *Program, r *Report, pv *Prov) {
 		r.Undec("C07.R3", cn, "", "anchor not found")
 		return
 	}
-	// fresh name space
-	var freshNS *ssa.Alloc
-	var tmplAllocs []*ssa.Alloc
+	// A struct literal of the function, or a call of a package helper that builds and returns one
+	// (newNameSpace(), newTemplateIn(ns, text, tree)): the value, and what each field is set to.
+	type lit struct {
+		Val    ssa.Value // the *T value in fn
+		Fields map[string]ssa.Value
+		Block  *ssa.BasicBlock
+		Pos    string
+		EscOK  bool // nameSpace only: esc = makeEscaper(this name space)
+	}
+	fieldsOfAlloc := func(al *ssa.Alloc) map[string]ssa.Value {
+		m := map[string]ssa.Value{}
+		for _, ref := range *al.Referrers() {
+			fa, ok := ref.(*ssa.FieldAddr)
+			if !ok {
+				continue
+			}
+			for _, rr := range *fa.Referrers() {
+				if st, ok := rr.(*ssa.Store); ok && st.Addr == ssa.Value(fa) {
+					m[fieldName(fa.X.Type(), fa.Field)] = st.Val
+				}
+			}
+		}
+		return m
+	}
+	escOfAlloc := func(al *ssa.Alloc, fields map[string]ssa.Value) bool {
+		if c, ok := fields["esc"].(*ssa.Call); ok {
+			if g := staticCallee(c.Common()); g != nil && cname(g) == "makeEscaper" && c.Common().Args[0] == ssa.Value(al) {
+				return true
+			}
+		}
+		return false
+	}
+	// ctorCall: call of a helper all of whose returns are one heap-allocated struct built in the helper
+	ctorCall := func(c *ssa.Call) (*lit, types.Type) {
+		g := staticCallee(c.Common())
+		if g == nil || g.Pkg != fn.Pkg || g.Blocks == nil || g.Signature.Results().Len() != 1 {
+			return nil, nil
+		}
+		var al *ssa.Alloc
+		for _, ret := range Returns(g) {
+			a, ok := ret.Results[0].(*ssa.Alloc)
+			if !ok || !a.Heap || (al != nil && al != a) {
+				return nil, nil
+			}
+			al = a
+		}
+		if al == nil {
+			return nil, nil
+		}
+		inner := fieldsOfAlloc(al)
+		l := &lit{Val: c, Fields: map[string]ssa.Value{}, Block: c.Block(), Pos: p.Pos(c.Pos())}
+		for name, v := range inner {
+			for i, prm := range g.Params {
+				if v == ssa.Value(prm) && i < len(c.Common().Args) {
+					l.Fields[name] = c.Common().Args[i]
+				}
+			}
+			if _, bound := l.Fields[name]; !bound {
+				if k, ok := v.(*ssa.Const); ok {
+					l.Fields[name] = k
+				}
+			}
+		}
+		l.EscOK = escOfAlloc(al, inner)
+		return l, al.Type().(*types.Pointer).Elem()
+	}
+	var nsLits, tmplLits []*lit
 	var textClone *ssa.Call
 	for _, b := range fn.Blocks {
 		for _, in := range b.Instrs {
@@ -193,30 +257,42 @@ func checkClone(p *Program, r *Report, pv *Prov) {
 					continue
 				}
 				el := x.Type().(*types.Pointer).Elem()
+				f := fieldsOfAlloc(x)
+				l := &lit{Val: x, Fields: f, Block: x.Block(), Pos: p.Pos(x.Pos())}
 				if isNamed(el, pkgTemplate, "nameSpace") {
-					freshNS = x
+					l.EscOK = escOfAlloc(x, f)
+					nsLits = append(nsLits, l)
 				}
 				if isNamed(el, pkgTemplate, "Template") {
-					tmplAllocs = append(tmplAllocs, x)
+					tmplLits = append(tmplLits, l)
 				}
 			case *ssa.Call:
 				if g := staticCallee(x.Common()); g != nil && fnName(g) == "(*text/template.Template).Clone" {
 					textClone = x
 				}
+				if l, el := ctorCall(x); l != nil {
+					if isNamed(el, pkgTemplate, "nameSpace") {
+						nsLits = append(nsLits, l)
+					}
+					if isNamed(el, pkgTemplate, "Template") {
+						tmplLits = append(tmplLits, l)
+					}
+				}
 			}
 		}
 	}
-	if freshNS == nil || textClone == nil || len(tmplAllocs) == 0 {
+	if len(nsLits) != 1 || textClone == nil || len(tmplLits) == 0 {
 		r.Undec("C07.R3", cn, p.Pos(fn.Pos()), "fresh nameSpace / text clone / Template literals not found")
 		return
 	}
-	r.OK("C07.R3", cn+"#fresh-namespace", p.Pos(freshNS.Pos()), "allocates a new nameSpace")
-	// escaper built from the fresh name space
-	escOK := false
+	freshNS := nsLits[0].Val
+	r.OK("C07.R3", cn+"#fresh-namespace", nsLits[0].Pos, "allocates a new nameSpace")
+	// escaper built from the fresh name space (in the literal's helper, or by a store in this function)
+	escOK := nsLits[0].EscOK
 	for _, st := range storesToField(fn, pkgTemplate, "nameSpace", "esc") {
-		if fa := st.Addr.(*ssa.FieldAddr); fa.X == ssa.Value(freshNS) {
+		if fa := st.Addr.(*ssa.FieldAddr); fa.X == freshNS {
 			if c, ok := st.Val.(*ssa.Call); ok {
-				if g := staticCallee(c.Common()); g != nil && cname(g) == "makeEscaper" && c.Common().Args[0] == ssa.Value(freshNS) {
+				if g := staticCallee(c.Common()); g != nil && cname(g) == "makeEscaper" && c.Common().Args[0] == freshNS {
 					escOK = true
 				}
 			}
@@ -234,40 +310,36 @@ func checkClone(p *Program, r *Report, pv *Prov) {
 		})
 		return ok
 	}
-	for i, al := range tmplAllocs {
+	var tmplBlocks []*ssa.BasicBlock
+	for i, tl := range tmplLits {
+		tmplBlocks = append(tmplBlocks, tl.Block)
 		c := fmt.Sprintf("%s#template-literal%d", cn, i)
-		pos := p.Pos(al.Pos())
-		var nsVal, textVal, treeVal ssa.Value
-		for _, ref := range *al.Referrers() {
-			fa, ok := ref.(*ssa.FieldAddr)
-			if !ok {
-				continue
-			}
-			for _, rr := range *fa.Referrers() {
-				if st, ok := rr.(*ssa.Store); ok && st.Addr == ssa.Value(fa) {
-					switch fieldName(fa.X.Type(), fa.Field) {
-					case "nameSpace":
-						nsVal = st.Val
-					case "text":
-						textVal = st.Val
-					case "Tree":
-						treeVal = st.Val
+		pos := tl.Pos
+		nsVal, textVal, treeVal := tl.Fields["nameSpace"], tl.Fields["text"], tl.Fields["Tree"]
+		nsOK := nsVal == freshNS
+		if !nsOK && nsVal != nil {
+			e := pv.Of(nsVal)
+			nsOK = e.Val == freshNS || (e.Op == "alloc" && e.Val == freshNS)
+			// the name space of an earlier literal of this function (ret.nameSpace)
+			if !nsOK && e.Op == "field" && e.Name == "nameSpace" && len(e.Args) == 1 {
+				for _, other := range tmplLits {
+					if e.Args[0].Val == other.Val && other.Fields["nameSpace"] == freshNS {
+						nsOK = true
 					}
 				}
 			}
 		}
-		nsOK := nsVal == ssa.Value(freshNS)
-		if !nsOK && nsVal != nil {
-			e := pv.Of(nsVal)
-			nsOK = e.Val == ssa.Value(freshNS) || (e.Op == "alloc" && e.Val == ssa.Value(freshNS))
+		desc := "<unset>"
+		if nsVal != nil {
+			desc = pv.Of(nsVal).String()
 		}
-		r.Check(nsOK, "C07.R3", c+"#namespace", pos, "carries the fresh name space", "a cloned Template shares a name space with the original: "+pv.Of(nsVal).String())
+		r.Check(nsOK, "C07.R3", c+"#namespace", pos, "carries the fresh name space", "a cloned Template shares a name space with the original: "+desc)
 		r.Check(textVal != nil && derivesFromClone(textVal), "C07.R3", c+"#text", pos, "wraps a member of the cloned text/template set", "a cloned Template wraps a text template of the original set")
 		// tree: for members created in the loop, the tree must be the Copy() stored into x.Tree just before
 		inLoop := false
 		for _, b := range fn.Blocks {
 			for _, su := range b.Succs {
-				if su.Dominates(b) && su.Dominates(al.Block()) {
+				if su.Dominates(b) && su.Dominates(tl.Block) {
 					inLoop = true
 				}
 			}
@@ -294,6 +366,7 @@ func checkClone(p *Program, r *Report, pv *Prov) {
 	}
 	// guards: receiver and every member not executed
 	pe := newPathExplorer(p, fn)
+	pe.Inline = true
 	okRecv, okMember, okSet := true, true, true
 	n := 0
 	for _, pth := range pe.Paths() {
@@ -316,11 +389,11 @@ func checkClone(p *Program, r *Report, pv *Prov) {
 		}
 	}
 	// member guard: the Template literal in the loop is dominated by src != nil ∧ src.escapeErr == nil
-	for _, al := range tmplAllocs {
+	for _, alBlock := range tmplBlocks {
 		inLoop := false
 		for _, b := range fn.Blocks {
 			for _, su := range b.Succs {
-				if su.Dominates(b) && su.Dominates(al.Block()) {
+				if su.Dominates(b) && su.Dominates(alBlock) {
 					inLoop = true
 				}
 			}
@@ -328,10 +401,10 @@ func checkClone(p *Program, r *Report, pv *Prov) {
 		if !inLoop {
 			continue
 		}
-		hasNil := allPathsGuard(pv, al.Block(), func(a Atom) bool {
+		hasNil := allPathsGuard(pv, alBlock, func(a Atom) bool {
 			return !a.Pol && a.E.Op == "binop" && a.E.Name == "==" && a.E.Args[0].Op == "lookup" && a.E.Args[1].Op == "const" && a.E.Args[1].Const == nil
 		}, 0)
-		hasErr := allPathsGuard(pv, al.Block(), func(a Atom) bool {
+		hasErr := allPathsGuard(pv, alBlock, func(a Atom) bool {
 			return a.Pol && a.E.Op == "binop" && a.E.Name == "==" && a.E.Args[0].Op == "field" && a.E.Args[0].Name == "escapeErr" && a.E.Args[0].Args[0].Op == "lookup"
 		}, 0)
 		if !hasNil || !hasErr {
